@@ -72,6 +72,7 @@ func rangeReductionOver(f *ssa.Function, field string) *reduction {
 			head := nx.Block()
 			body := head.Succs[0]
 			r.kind = ""
+			var firstIfs, cmpBlocks []*ssa.BasicBlock
 			for _, bb := range f.Blocks {
 				if !(body.Dominates(bb)) || !flow.ReachBlock(bb, head, nil) {
 					continue
@@ -82,7 +83,10 @@ func rangeReductionOver(f *ssa.Function, field string) *reduction {
 				}
 				cond := iff.Cond
 				if _, isPhi := cond.(*ssa.Phi); isPhi && cond.Type().Underlying() == types.Typ[types.Bool] {
-					continue // the `first` flag
+					// the `first` flag: its true side must take the value unconditionally (first || cmp), not lead
+					// into the comparison (first && cmp never takes a value)
+					firstIfs = append(firstIfs, bb)
+					continue
 				}
 				bo, ok := cond.(*ssa.BinOp)
 				if !ok {
@@ -95,6 +99,7 @@ func rangeReductionOver(f *ssa.Function, field string) *reduction {
 					r.filter = flow.Describe(cond)
 					continue
 				}
+				cmpBlocks = append(cmpBlocks, bb)
 				// which successor updates? the one from which the update edge of the phi is reached
 				updSucc := -1
 				for i, e := range r.acc.Edges {
@@ -145,6 +150,33 @@ func rangeReductionOver(f *ssa.Function, field string) *reduction {
 			}
 			if r.kind == "" {
 				r.kind = "other"
+			}
+			if r.kind == "MIN" || r.kind == "MAX" {
+				isCmp := func(b *ssa.BasicBlock) bool {
+					for _, cb := range cmpBlocks {
+						if cb == b {
+							return true
+						}
+					}
+					return false
+				}
+				for _, fb := range firstIfs {
+					// from the true side the update edge is reached without passing a comparison or the header
+					reachesUpdate := false
+					for i, e := range r.acc.Edges {
+						if e != r.val {
+							continue
+						}
+						p := r.acc.Block().Preds[i]
+						t := fb.Succs[0]
+						if !isCmp(t) && (t == p || flow.ReachBlock(t, p, func(a, b2 *ssa.BasicBlock) bool { return b2 != head && !isCmp(b2) })) {
+							reachesUpdate = true
+						}
+					}
+					if !reachesUpdate {
+						r.kind = "other (the first-element flag does not take the value unconditionally)"
+					}
+				}
 			}
 			return r
 		}
@@ -251,6 +283,7 @@ func c01(c *Ctx) (*report.Result, error) {
 	}
 	if f := resolve(c, res, "O1.3", anchor{"proxy", "*proxyStreamSender", "recvAck"}); f != nil {
 		checkRecvAckDiscard(c, res, f)
+		checkRetryLoopBookkeeping(c, res, "O1.3", f, 2)
 		res.RuleDoc["O1.5"] = "an acknowledgement handed to a source shard's receiver is a fresh object: nothing reachable from it is written after the hand-over (the receiver reads it later, from another goroutine)"
 		checkNoWriteAfterHandover(c, res, "O1.5", f, "forwarded ack")
 	}
@@ -312,6 +345,34 @@ func checkSentValue(c *Ctx, res *report.Result, f *ssa.Function, r *reduction, r
 		}
 	}
 	res.Check(ok, rule, "sendAck: the value sent is the aggregated minimum (or its clamp)", instrPos(c.Prog, send), "InclusiveLowWatermark = min (clamped to the source's last high watermark)", "the acknowledgement sent upstream is not the aggregated minimum")
+	// the clamp may only lower the value: the source's high watermark replaces the minimum only where the minimum
+	// exceeds it - on any other edge it would raise the acknowledgement above what the targets confirmed
+	if phi, isPhi := sentVal.(*ssa.Phi); isPhi && ok {
+		for i, e := range phi.Edges {
+			pth, okp := flow.FieldPath(e)
+			if !okp || !strings.HasSuffix(pth, ".lastExclusiveHighOriginal") {
+				continue
+			}
+			pred := phi.Block().Preds[i]
+			gs := append(flow.NormGuards(flow.Guards(pred)), flow.NormGuards(flow.EdgeGuards(pred, phi.Block()))...)
+			lowers := false
+			for _, g := range gs {
+				bo, isB := g.Cond.(*ssa.BinOp)
+				if !isB {
+					continue
+				}
+				py, _ := flow.FieldPath(bo.Y)
+				px, _ := flow.FieldPath(bo.X)
+				if bo.X == ssa.Value(r.acc) && strings.HasSuffix(py, ".lastExclusiveHighOriginal") && ((bo.Op == token.GTR && g.Side) || (bo.Op == token.GEQ && g.Side) || (bo.Op == token.LEQ && !g.Side) || (bo.Op == token.LSS && !g.Side)) {
+					lowers = true
+				}
+				if bo.Y == ssa.Value(r.acc) && strings.HasSuffix(px, ".lastExclusiveHighOriginal") && ((bo.Op == token.LSS && g.Side) || (bo.Op == token.LEQ && g.Side) || (bo.Op == token.GEQ && !g.Side) || (bo.Op == token.GTR && !g.Side)) {
+					lowers = true
+				}
+			}
+			res.Check(lowers, rule, "sendAck: the clamp only lowers the acknowledgement", instrPos(c.Prog, send), "the high watermark replaces the minimum only under min > lastExclusiveHighOriginal", "the source's last high watermark is sent in place of the minimum on a path on which the minimum was not found to exceed it: the acknowledgement is raised above what the slowest target confirmed")
+		}
+	}
 	return
 }
 
@@ -336,6 +397,7 @@ func checkAggregateMax(c *Ctx, res *report.Result, f *ssa.Function, rule string)
 	// every edge into the update block: lookup not found, or entry.sourceTask > current
 	okMax := true
 	why := ""
+	seenAbsent, seenLarger := false, false
 	for _, p := range upd.Block().Preds {
 		iff := lastIfOf(p)
 		if iff == nil {
@@ -347,23 +409,42 @@ func checkAggregateMax(c *Ctx, res *report.Result, f *ssa.Function, rule string)
 		case *ssa.Extract:
 			if lk, isL := x.Tuple.(*ssa.Lookup); !isL || x.Index != 1 || side || lk.X != upd.Map {
 				okMax, why = false, "update edge not the 'no entry yet' case"
+			} else {
+				seenAbsent = true
 			}
 		case *ssa.BinOp:
 			lhs, _ := flow.FieldPath(x.X)
 			_, rhsIsLookup := x.Y.(*ssa.Extract)
-			gt := (x.Op == token.GTR && side) || (x.Op == token.LEQ && !side)
+			gt := ((x.Op == token.GTR || x.Op == token.GEQ) && side) || ((x.Op == token.LEQ || x.Op == token.LSS) && !side)
 			if !(strings.HasSuffix(lhs, "sourceTask") && rhsIsLookup && gt) {
 				// mirrored form current < sourceTask
 				rhs, _ := flow.FieldPath(x.Y)
 				_, lhsIsLookup := x.X.(*ssa.Extract)
-				lt := (x.Op == token.LSS && side) || (x.Op == token.GEQ && !side)
+				lt := ((x.Op == token.LSS || x.Op == token.LEQ) && side) || ((x.Op == token.GEQ || x.Op == token.GTR) && !side)
 				if !(strings.HasSuffix(rhs, "sourceTask") && lhsIsLookup && lt) {
 					okMax, why = false, "the update condition is not 'entry.sourceTask > current': "+flow.Describe(x)
 				}
 			}
+			// the comparison itself must be made on the found side only
+			foundSide := false
+			for _, g := range flow.NormGuards(flow.Guards(p)) {
+				if ex, isEx := g.Cond.(*ssa.Extract); isEx && ex.Index == 1 && g.Side {
+					if lk, isL := ex.Tuple.(*ssa.Lookup); isL && lk.X == upd.Map {
+						foundSide = true
+					}
+				}
+			}
+			if okMax && foundSide {
+				seenLarger = true
+			} else if okMax {
+				okMax, why = false, "the 'larger' comparison is made where no entry was found (an `&&` for the `||`): a source shard without an entry never gets one"
+			}
 		default:
 			okMax, why = false, "unrecognised update condition "+flow.Describe(iff.Cond)
 		}
+	}
+	if okMax && !(seenAbsent && seenLarger) {
+		okMax, why = false, fmt.Sprintf("the update is not reached both for a source shard without an entry and for a larger id (absent edge: %v, larger edge: %v)", seenAbsent, seenLarger)
 	}
 	res.Check(okMax, rule, "AggregateUpTo: per-source value is the maximum original id covered", instrPos(c.Prog, upd), "update iff absent or larger", "the per-source acknowledgement is not the maximum over the covered entries ("+why+"): a smaller id would under-acknowledge, a wrong comparison direction would pick the oldest task")
 	// skip only holes: any edge from the loop body to the loop post that avoids the lookup must be the hole test
@@ -582,6 +663,7 @@ func c03(c *Ctx) (*report.Result, error) {
 		res.Undec("O3.1", "sendAck: aggregation loop", fnPos(c.Prog, f), "not found")
 		return res, nil
 	}
+	res.Check(r.kind == "MIN" && r.filter == "", "O3.1", "sendAck: the aggregated value is the minimum over all targets (shared with O1.1)", instrPos(c.Prog, r.next), "MIN reduction, no filter", "the reduction over ackByTarget is "+r.kind+" (filter: "+r.filter+"): with a conjunction in place of `first || wm < min` no value is ever taken and no acknowledgement is ever sent")
 	send, sentVal, req := checkSentValue(c, res, f, r, "O3.2")
 	if send == nil {
 		return res, nil
@@ -639,8 +721,8 @@ func c03(c *Ctx) (*report.Result, error) {
 						good = true // no high watermark known
 					}
 				}
-				if bo.X == ssa.Value(r.acc) && strings.HasSuffix(py, ".lastExclusiveHighOriginal") && bo.Op == token.GTR && !g.Side {
-					good = true // min <= high
+				if bo.X == ssa.Value(r.acc) && strings.HasSuffix(py, ".lastExclusiveHighOriginal") && (bo.Op == token.GTR || bo.Op == token.GEQ) && !g.Side {
+					good = true // min <= high (or min < high)
 				}
 			}
 			if !good {
@@ -689,6 +771,49 @@ func c03(c *Ctx) (*report.Result, error) {
 					okObj := g == f && st.Val == req && flow.InstrDominates(send, st) && guardedErrNil(st.Block(), ssa.Value(send))
 					res.Check(okObj, "O3.4", shortFn(g)+": lastSentAck = the request just sent", instrPos(c.Prog, st), "ok", "the keep-alive object is not the last acknowledgement that was successfully sent")
 				}
+			}
+		}
+	}
+	// ---- O3.3 / O3.2 presence: the guards above compare against lastSentMin and lastExclusiveHighOriginal, so both
+	// must actually be kept up to date: after every successful aggregated Send the loop is re-entered only through
+	// a store of lastSentMin, and every batch of the relayed kind passes a store of lastExclusiveHighOriginal
+	// before the next Recv
+	{
+		isStoreOf := func(field string) func(ssa.Instruction) bool {
+			return func(x ssa.Instruction) bool {
+				st, ok := x.(*ssa.Store)
+				if !ok {
+					return false
+				}
+				fa, ok := st.Addr.(*ssa.FieldAddr)
+				return ok && flow.NamedIs(fa.X.Type(), proxyPkg, "proxyStreamReceiver") && flow.FieldName(fa.X.Type(), fa.Field) == field
+			}
+		}
+		var sel ssa.Instruction
+		for _, b := range f.Blocks {
+			for _, ins := range b.Instrs {
+				if s2, ok := ins.(*ssa.Select); ok && s2.Blocking {
+					sel = s2
+				}
+			}
+		}
+		if sel != nil {
+			pr := flow.FindPath(flow.After(send), func(x ssa.Instruction) bool { return x == sel }, isStoreOf("lastSentMin"), nil)
+			res.Check(!pr.Found, "O3.3", "sendAck: lastSentMin is updated after every aggregated ack that was sent", instrPos(c.Prog, send), "no way from the Send back to the select avoids the store", "after a successful Send the loop can be re-entered without recording the value in lastSentMin (path "+flow.BlockPath(pr.Via)+"): the monotonicity guard keeps comparing against an older level and a lower acknowledgement can follow a higher one")
+		} else {
+			res.Undec("O3.3", "sendAck: select loop", fnPos(c.Prog, f), "no blocking select found")
+		}
+		if g := resolve(c, res, "O3.2", anchor{"proxy", "*proxyStreamReceiver", "recvReplicationMessages"}); g != nil {
+			isRecv := func(x ssa.Instruction) bool {
+				call, ok := x.(ssa.CallInstruction)
+				return ok && call.Common().IsInvoke() && call.Common().Method.Name() == "Recv"
+			}
+			for _, call := range flow.Calls(g) {
+				if !isRecv(call) {
+					continue
+				}
+				pr := flow.FindPath(flow.After(call), isRecv, isStoreOf("lastExclusiveHighOriginal"), func(a, b *ssa.BasicBlock) bool { return !wrongKindEdge(a, b) })
+				res.Check(!pr.Found, "O3.2", "recvReplicationMessages: the clamp bound is recorded for every batch", instrPos(c.Prog, call), "no Recv -> Recv path of a replication-messages response avoids the store of lastExclusiveHighOriginal", "a batch can be consumed without recording its exclusive high watermark (path "+flow.BlockPath(pr.Via)+"): the clamp then compares against an older bound, or against 0, which disables it")
 			}
 		}
 	}
